@@ -125,23 +125,32 @@ def run(ctx):
     triples = grid + defs + lits
     impl_lines = None
     if compiled:
-        rc, out = ctx.run(["go", "build", "-o", "prog", "."], cwd=d, timeout=300)
+        rc, out = ctx.run("go build -o prog . 2>&1", cwd=d, timeout=300)
         if rc != 0:
             # the compiler produced Go that does not build: every case fails to run
             ctx.broken("correspondence(c04: go build of the compiled grid program)", out[-1500:])
         else:
-            rc, out = ctx.run([os.path.join(d, "prog")], input="\n".join(cases) + "\n", timeout=300)
-            if rc != 0:
-                ctx.broken("correspondence(c04: run of the grid program)", "rc=%d %s" % (rc, out[-800:]))
-            else:
-                impl_lines = out.splitlines()
+            rc, out = ctx.run([os.path.join(d, "prog")], input="\n".join(cases) + "\n", timeout=120)
+            impl_lines = out.splitlines()
+            if rc != 0 or len(impl_lines) != len(cases):
+                # the program died or hung: the case after the last complete line is the input that does it
+                k = min(len(impl_lines), len(cases) - 1)
+                ctx.broken("correspondence(c04: run of the grid program)", "rc=%d after %d of %d cases; next case: %s" % (rc, len(impl_lines), len(cases), cases[k]))
+                s_, e_, st_ = (grid + defs + lits)[k]
+                ctx.fail("range:crash:%d:%d:%d" % (s_, e_, st_), "the compiled program crashes / does not terminate / exhausts memory on case `%s` (start:end:step = %d:%d:%d)" % (cases[k], s_, e_, st_),
+                         {"s": s_, "e": e_, "st": st_, "case": cases[k], "rc": rc})
+                impl_lines = impl_lines[:k]
     rc2, mout = ctx.run([model], input="\n".join(mcases) + "\n")
     if rc2 != 0:
         ctx.broken("correspondence(c04: model run)", mout[-500:])
         return
     if impl_lines is None:
         return
-    ctx.diff_lines("run_shape/iter_of_args~compiled program", mcases, "\n".join(impl_lines), mout)
+    mlines = mout.splitlines()
+    if len(impl_lines) == len(mcases):
+        ctx.diff_lines("run_shape/iter_of_args~compiled program", mcases, "\n".join(impl_lines), mout)
+    else:
+        ctx.diff_lines("run_shape/iter_of_args~compiled program (cases before the crash)", mcases[:len(impl_lines)], "\n".join(impl_lines), "\n".join(mlines[:len(impl_lines)]))
 
     # ---- C: direct oracle on the implementation's output
     hist, nontriv, seen = {}, set(), set()
@@ -182,8 +191,8 @@ def run(ctx):
                 ctx.fail("defaults:%d:%d" % (s, e), "`%d:%d` differs from `%d:%d:1`: %s vs %s" % (s, e, s, e, l, wants), {"s": s, "e": e, "impl": l})
 
     ngrid = (2 * R + 1) ** 3
-    ctx.cover(evaluations=len(cases), distinct_nontrivial=len(nontriv),
-              samples=[{"case": mcases[i], "impl": impl_lines[i]} for i in (5 * (2 * R + 1) ** 2 + 9, ngrid // 2 + 3, len(grid) + 20, len(cases) - 3)],
+    ctx.cover(evaluations=len(impl_lines), distinct_nontrivial=len(nontriv),
+              samples=[{"case": mcases[i], "impl": impl_lines[i]} for i in (5 * (2 * R + 1) ** 2 + 9, ngrid // 2 + 3, len(grid) + 20, len(cases) - 3) if i < len(impl_lines)],
               rule="one compiled program, 8 contexts as functions of (start,end,step): exhaustive grid [-%d..%d]^3 incl. step 0 (%d), "
                    "%d seeded triples in [-60..60]^2 x [-20..20]; omitted start/step forms for 169 (start,end); %d literal-operand "
                    "instances (80 fixed + seeded) in 3 contexts; sequences longer than %d are reported as DIV on both sides; "
